@@ -375,7 +375,7 @@ def minimise(driver, cfg, v, max_tries=150):
 
 
 def write_replay(driver, cfg, tier, v, choices, minimised):
-    d = os.path.join(VERIF_DIR, 'replays')
+    d = os.environ.get('VERIF_REPLAY_DIR') or os.path.join(VERIF_DIR, 'replays')
     os.makedirs(d, exist_ok=True)
     path = os.path.join(d, '{0}-{1}-{2}.json'.format(v.prop, class_hash(v), v.extra.get('run_seed', 0)))
     try:
@@ -457,7 +457,7 @@ def report(driver_by_name, cfg_by_name, tier, totals_list, do_minimise=True):
 
 
 def write_evidence(prop, tier, level, coverage, assumptions, wall_s, violations):
-    d = os.path.join(VERIF_DIR, 'evidence')
+    d = os.environ.get('VERIF_EVIDENCE_DIR') or os.path.join(VERIF_DIR, 'evidence')
     os.makedirs(d, exist_ok=True)
     data = dict(property_id=prop, tier=tier, seed=verif_seed(), level=level, coverage=coverage,
                 assumptions=assumptions, wall_s=round(wall_s, 2), violations=violations)
